@@ -297,6 +297,16 @@ func (e *Env) xsym() *core.Symbolizer {
 	return e.xs
 }
 
+// fsym: a symboliser that looks through every private function of the module, whatever its size (for values
+// such as timestamps that a refactoring may route through a large helper).
+func (e *Env) fsym() *core.Symbolizer {
+	if e.fs == nil {
+		e.fs = e.P.NewSymbolizer(func(f *ssa.Function) bool { return f.Object() == nil || !f.Object().Exported() })
+		e.fs.MaxDepth = 10
+	}
+	return e.fs
+}
+
 // xargSym: like argSym, through small private helpers.
 func (e *Env) xargSym(n *core.Node, i int) *core.Sym {
 	if n.Call == nil || i >= len(n.Call.Args) {
